@@ -80,6 +80,14 @@ CLAIMS = {
         text="Each of 10 limit middlewares x limit L x probe message (kind x size 0..L+2, including 'absent' and 'only the second filter offends') between bystander messages, around a recording stub that also emits all seven server message types: all schedules; all ordered pairs of two middlewares on a 7-message script: all schedules; the NIP-11 chain for all 128 subsets of the seven limits plus nil document and a document without limitation block on a 14-message script (unbounded for chains of depth <= 1, delay-bounded for deeper ones). Oracle: forwarded unchanged (pointer-identical) iff within the limit, else exactly one rejection of the right type and nothing forwarded; bystanders and server messages unchanged and in order; identity when nothing is set.",
         note="created_at windows are judged against a virtual clock and claimed only at >= 2 s from the boundary; an over-long CLOSE id is unclaimed.",
         technique=E1_TECH, design="DESIGN.md §4 C17"),
+    "C18": dict(engine="vsched", category="model_checking",
+        text="All client histories up to length 5/6 over {REQ a,b,c; CLOSE a,b} through the real MaxSubscriptions wrapper for N=1,2(,3), all EVENT-id histories up to length 5/6 over 3 ids through the real receive- and send-side unique filters for window 1,2, each on all schedules (unbounded with state caching), against a set model and a last-size-distinct model (three-valued); two concurrent sessions on one middleware value with colliding ids: all schedules, each session's outcome equals its outcome alone.",
+        note="A repeated id that has left the window is unclaimed. Stubs downstream answer every REQ with EOSE / every EVENT with OK.",
+        technique=E1_TECH, design="DESIGN.md §4 C18"),
+    "C19": dict(engine="vsched", category="model_checking",
+        text="All single-session client histories up to length 3/4 over 9 symbols (REQ a/b/x/live, CLOSE a/x, EVENT kind 1/7, COUNT) through the real Prometheus middleware including teardown by an environment canceller at every cut point (unbounded), and 10 two-session script pairs x 4 endings within delay bounds; at every quiescence: both streams unaltered and in order, connection gauge = live sessions, subscription gauge explained by some merge of the REQ/CLOSE and CLOSED sequences and released at session end, per-type and per-kind counters = messages that crossed.",
+        note="Metrics are read with Registry.Gather() at quiescence only; messages a session takes after its context is cancelled are held to 'in-order subsequence'.",
+        technique=E1_TECH, design="DESIGN.md §4 C19"),
     "C20": dict(engine="seqx", category="exploration",
         text="Product of Upgrade/Accept/method/path/mux configurations through ServeMux.ServeHTTP on a ResponseRecorder (relay path recognised by equality with Relay.ServeHTTP's own answer), and NIP-11 documents (2^16 present/absent product plus targeted structured values; kind ranges as numbers and pairs) through Marshal/Unmarshal and the HTTP handlers.",
         note="Accept values that merely contain the media type or differ in case are unclaimed; headers are claimed only when a document is configured.",
